@@ -243,3 +243,94 @@ def replicate(reps):
                         op["tok"]["rep"] = r
                 yield c
     return expand
+
+
+# ------------------------------------------------------------------- C05
+LIBNAMES = {"alg", "typ", "iat", "nbf", "exp"}
+
+
+def _rand_str(rnd, cls):
+    n = rnd.choice([0, 1, 3, 8, 20])
+    if cls == "long" and rnd.random() < 0.3:
+        n = rnd.choice([255, 256, 1000, 5000, 65536])
+    if cls == "unicode" or (cls in ("nested", "long") and rnd.random() < 0.3):
+        alpha = [chr(c) for c in (0x20, 0x22, 0x5c, 0x2f, 0x7f, 0xe9, 0x3b1, 0x4e2d, 0x20ac, 0xfffd, 0x1f600, 0x10ffff, 0x0a, 0x09, 0x01)] + list("abcXYZ09 -_")
+    else:
+        alpha = list("abcdefghijklmnopqrstuvwxyzABCXYZ0123456789 -_./+=")
+    return "".join(rnd.choice(alpha) for _ in range(n))
+
+
+def _rand_val(rnd, cls, depth):
+    r = rnd.random()
+    if depth <= 0 or r < 0.45:
+        k = rnd.random()
+        if k < 0.30:
+            if cls == "bigint" or rnd.random() < 0.2:
+                return rnd.choice([2**63 - 1, -2**63, 2**62, -2**62, 2**53 + 1, 2**32, -2**31 - 1, rnd.randrange(-2**63, 2**63)])
+            return rnd.randrange(-1000, 1000)
+        if k < 0.65:
+            return _rand_str(rnd, cls)
+        if k < 0.75:
+            return rnd.choice([True, False])
+        if k < 0.82:
+            return None
+        if k < 0.90:
+            return rnd.choice([0.5, -1.25, 1e10, 3.0, 1.5e-7])
+        return rnd.choice([[], {}])
+    if r < 0.75:
+        return {(_rand_str(rnd, cls) or "k") + str(i): _rand_val(rnd, cls, depth - 1) for i in range(rnd.randrange(0, 5))}
+    return [_rand_val(rnd, cls, depth - 1) for _ in range(rnd.randrange(0, 5))]
+
+
+def rand_tree(rnd, cls):
+    import json as _j
+    if cls == "empty":
+        return "{}"
+    depth = {"flat": 1, "nested": 6}.get(cls, 3)
+    o = {}
+    for i in range(rnd.randrange(1, 7)):
+        name = (_rand_str(rnd, cls) or "n") + str(i)
+        if name in LIBNAMES:
+            name += "_"
+        o[name] = _rand_val(rnd, cls, depth - 1)
+    return _j.dumps(o, ensure_ascii=False)
+
+
+def c05_trees(scripts, seed):
+    """Concretise "@tree:<class>" placeholders with seeded random JSON trees and
+    repeat the texts in the Generate operation (hjson/cjson)."""
+    import copy
+    n = 0
+    for s in scripts:
+        n += 1
+        rnd = random.Random(seed * 6700417 + n)
+        c = copy.deepcopy(s)
+        texts = {"hdr": "{}", "clm": "{}"}
+        for op in c:
+            if op.get("op") == "BMap" and isinstance(op["v"].get("val"), str) and op["v"]["val"].startswith("@tree:"):
+                t = rand_tree(rnd, op["v"]["val"][6:])
+                texts[op["which"]] = t
+                op["v"]["val"] = "#hex:" + t.encode("utf-8").hex()
+            elif op.get("op") == "Generate" and "hjson" in op:
+                op["hjson"] = "#hex:" + texts["hdr"].encode("utf-8").hex()
+                op["cjson"] = "#hex:" + texts["clm"].encode("utf-8").hex()
+        yield c
+
+
+def repeat_tail(k, times, per_case):
+    """Repeat the last k operations `times` times, split over cases of `per_case` repetitions."""
+    def expand(scripts, seed):
+        import copy
+        for s in scripts:
+            head, tail = s[:-k], s[-k:]
+            done = 0
+            i = 0
+            while done < times:
+                m = min(per_case, times - done)
+                c = copy.deepcopy(head) + [dict(op="Clock", now=W(1700000000 + i))]
+                for _ in range(m):
+                    c += copy.deepcopy(tail)
+                yield c
+                done += m
+                i += 1
+    return expand
